@@ -10,6 +10,7 @@ type case = vw array   (* a, b, c *)
 let has_ge = ref false   (* set by --has-ge: the library defines >= for rank >= 2 *)
 let rank0 = ref false    (* set by --rank0: comparisons between rank-0 arrays compile, generate some *)
 let alias = ref false    (* set by --alias: the harness understands xshare (operands over one root) *)
+let rebased = ref false  (* set by --rebased (C19): operands carry non-zero index bases (re-indexed at the end of their programs) *)
 let names = [| "a"; "b"; "c" |]
 let base_of k = 10000 * k
 
@@ -66,8 +67,8 @@ let case_text (id : string) (c : case) : string =
 let prod l = List.fold_left ( * ) 1 l
 
 (* realise logical (sizes, contents) as a view over a padded root filled with junk *)
-let realise (sizes : int list) (contents : int list) : vw =
-  let exts, ops = Assign.gen_src sizes in
+let realise ?(firsts = []) (sizes : int list) (contents : int list) : vw =
+  let exts, ops = Assign.gen_src ~firsts sizes in
   let n = prod (List.map (fun (f, l) -> l - f) exts) in
   let data = Array.init n (fun _ -> rnd 3) in
   (match run_ops ops (root_view (List.map (fun (f, l) -> (z f, z l)) exts)) with
@@ -149,8 +150,11 @@ let rec gen_case () : case * string list =
   let cb = if reshaped then ca else derive sa ca sb in
   let sc = if chance 30 then sa else perturb_sizes sb in
   let cc = if chance 30 then derive sa ca sc else derive sb cb sc in
-  let c = [| realise sa ca; realise sb cb; realise sc cc |] in
-  (c, [ Printf.sprintf "rank%d" r; (if sa = sb then "same_sizes_ab" else "diff_sizes_ab"); (if sa = sb && ca = cb then "equal_ab" else "unequal_ab");
+  let fa = if !rebased then List.init r (fun _ -> if chance 25 then 0 else rnd_range (-3) 3) else [] in
+  let other f = if !rebased && chance 12 then List.map (fun x -> if chance 50 then x + pick [ -1; 1 ] else x) f else f in
+  let fb = other fa and fc = other fa in
+  let c = [| realise ~firsts:fa sa ca; realise ~firsts:fb sb cb; realise ~firsts:fc sc cc |] in
+  (c, (if !rebased then [ (if fa = fb && fa = fc then "same_bases" else "different_bases") ] else []) @ [ Printf.sprintf "rank%d" r; (if sa = sb then "same_sizes_ab" else "diff_sizes_ab"); (if sa = sb && ca = cb then "equal_ab" else "unequal_ab");
         (if prod sa = 0 || prod sb = 0 then "some_empty" else "nonempty") ] @ (if reshaped && sa <> sb then [ "reshaped_same_flat" ] else []))
 
 let parse_cases (text : string) : (string * case) list =
